@@ -184,7 +184,18 @@ rev_fns!(E16, rt_feed_e16, rt_adv_e16, |v: i64| E16(v, !v), |x: &E16| if x.1 == 
 #[no_mangle] pub extern "C" fn rt_vec_rev(mut v: CVec<u64>, n: usize, base: u64) -> u64 {
     for i in 0..n { v.push(base + i as u64); }
     if n % 3 == 2 && !v.is_empty() { let x = v.remove(0); v.insert(0, x); }
-    let sum = v.iter().fold(0u64, |a, x| a.wrapping_mul(31).wrapping_add(*x));
+    let mut poisoned = false;
+    if n % 4 == 1 && v.len() >= 2 {
+        // insert into a FULL vector: the C side's reserve function moves the buffer, and the element must land in the NEW one, between its neighbours
+        let mut filler = 0usize;
+        while v.len() < v.capacity() { v.push(7_000_000 + filler as u64); filler += 1; }
+        let (a, b, len0) = (v[0], v[1], v.len());
+        v.insert(1, 4242);
+        if v.len() != len0 + 1 || v[0] != a || v[1] != 4242 || v[2] != b { poisoned = true; }
+        if v.remove(1) != 4242 { poisoned = true; }
+        for _ in 0..filler { if v.pop().is_none() { poisoned = true; } }
+    }
+    let sum = if poisoned { u64::MAX } else { v.iter().fold(0u64, |a, x| a.wrapping_mul(31).wrapping_add(*x)) };
     if n % 2 == 1 {
         // a COPY of the C-built vector is Rust's own: growing it past its capacity and releasing it must not involve the C side's functions
         // (the C driver's reserve/drop functions complain about any buffer they did not hand out)
